@@ -70,6 +70,7 @@ func (s *Sys) deliverRecv(dst *world.Chain, signer world.Account, msgs []sdk.Msg
 			}
 		}
 		pre := dumpAll(dst)
+		locksPre := s.locks(dst)
 		r := dst.Deliver(tx)
 		post := dumpAll(dst)
 		s.globalMonitors(dst, pre, post, nil, add, "recv")
@@ -87,6 +88,7 @@ func (s *Sys) deliverRecv(dst *world.Chain, signer world.Account, msgs []sdk.Msg
 			add("C01", "duplicate-receive-accepted", fmt.Sprintf("recv %s on %s accepted although the triple was already received (or is repeated inside the tx); changed %v", what, short[dst.Name], d))
 		}
 		nested := s.observeSends(dst, pre, post, r, add, "recv "+what)
+		s.lockMonitor(dst, locksPre, nested, add, "recv "+what)
 		if len(nested) > 0 {
 			class += fmt.Sprintf(" nested-sends=%d", len(nested))
 			for _, x := range nested {
@@ -294,4 +296,42 @@ func (s *Sys) deliverAck(src *world.Chain, signer world.Account, msgs []sdk.Msg,
 	}
 	t.Acked = true
 	return "ack accepted", class
+}
+
+// locks reads outTokens for every known token and destination of c.
+func (s *Sys) locks(c *world.Chain) map[string]int64 {
+	out := map[string]int64{}
+	for name, tk := range s.chainTokens(c.Name) {
+		for _, d := range append(append([]string{}, s.w.Order...), "nochain-77") {
+			if d != c.Name {
+				out[name+"|"+d] = c.OutTokens(tk, d).Int64()
+			}
+		}
+	}
+	return out
+}
+
+// lockMonitor (C04): tokens may become locked towards a destination only together with a commitment for that send.
+func (s *Sys) lockMonitor(c *world.Chain, pre map[string]int64, sends []*transfer, add addFn, what string) {
+	post := s.locks(c)
+	for name, tk := range s.chainTokens(c.Name) {
+		for _, d := range append(append([]string{}, s.w.Order...), "nochain-77") {
+			if d == c.Name {
+				continue
+			}
+			delta := post[name+"|"+d] - pre[name+"|"+d]
+			if delta <= 0 {
+				continue
+			}
+			var committed int64
+			for _, t := range sends {
+				if t.Dst == d && t.Token == tk {
+					committed += t.Amount
+				}
+			}
+			if committed != delta {
+				add("C04", "tokens-locked-without-commitment", fmt.Sprintf("%s on %s: outTokens[%s][%s] grew by %d but the transaction committed sends of %d", what, short[c.Name], name, shortOr(d), delta, committed))
+			}
+		}
+	}
 }
